@@ -18,19 +18,21 @@ double verif_inst(std::vector<int>& v, const std::vector<int>& cv, std::vector<i
 '''
 TUS = {'rt': dict(src=INST, filter='bpp::RandomTools'),
        'rtc': dict(src='#include "/repo/src/Bpp/Numeric/Random/RandomTools.cpp"\n', filter='bpp::RandomTools', flags=['-I/repo/src/Bpp/Numeric/Random', '-I/repo/src']),
-       'gd': dict(src=INST, filter='bpp::GaussianDiscreteDistribution')}
+       'gd': dict(src=INST, filter='bpp::GaussianDiscreteDistribution'),
+       'ctg': dict(src='#include "/repo/src/Bpp/Numeric/Random/ContingencyTableGenerator.cpp"\n', filter='bpp::ContingencyTableGenerator', flags=['-I/repo/src/Bpp/Numeric/Random', '-I/repo/src'])}
 VI = 'std::vector<int>'
 GD = 'bpp::GaussianDiscreteDistribution'
+CTG = 'bpp::ContingencyTableGenerator'
 CFG = dict(
     types={'std::normal_distribution<double>': 'Dist', 'std::gamma_distribution<double>': 'Dist', 'std::exponential_distribution<double>': 'Dist',
            'std::uniform_real_distribution<double>': 'Dist', 'std::uniform_int_distribution<unsigned long>': 'DistU',
            'std::mersenne_twister_engine<unsigned long, 32, 624, 397, 31, 2567483615, 11, 4294967295, 7, 2636928640, 15, 4022730752, 18, 1812433253>': 'Rng',
-           'std::mt19937': 'Rng', 'std::vector<unsigned long>': 'IdxVec', 'vector<size_t>': 'IdxVec', 'vector<unsigned long>': 'IdxVec', 'std::vector<size_t>': 'IdxVec'},
+           'std::mt19937': 'Rng', 'std::vector<unsigned long>': 'IdxVec', 'vector<size_t>': 'IdxVec', 'bpp::RowMatrix<unsigned long>': 'MatU', 'RowMatrix<size_t>': 'MatU', 'bpp::RowMatrix<size_t>': 'MatU', 'RowMatrix<unsigned long>': 'MatU', 'vector<unsigned long>': 'IdxVec', 'std::vector<size_t>': 'IdxVec'},
     plain=set(),
     rename={('ctor', 'std::normal_distribution<double>', 2): 'Dist__normal', ('ctor', 'std::gamma_distribution<double>', 2): 'Dist__gamma',
             ('ctor', 'std::exponential_distribution<double>', 1): 'Dist__exponential', ('ctor', 'std::uniform_real_distribution<double>', 2): 'Dist__uniform',
             ('ctor', 'std::uniform_int_distribution<unsigned long>', 2): 'DistU__uniform'},
-    free={('cumSum', 1): 'verif_cumsum', ('sum', 1): 'verif_vsum', ('sqrt', 1): 'verif_sqrt', ('iota', 3): 'verif_iota', ('shuffle', 3): 'verif_shuffle',
+    free={('exp', 1): 'verif_expl', ('log', 1): 'verif_log', ('cumSum', 1): 'verif_cumsum', ('sum', 1): [('unsigned long (const std::vector<unsigned long> &)', 'verif_usum'), ('double (const std::vector<double> &)', 'verif_vsum')], ('sqrt', 1): 'verif_sqrt', ('iota', 3): 'verif_iota', ('shuffle', 3): 'verif_shuffle',
           ('giveRandomNumberBetweenZeroAndEntry', 1): 'RandomTools__giveRandomNumberBetweenZeroAndEntry',
           ('giveIntRandomNumberBetweenZeroAndEntry', 1): 'RandomTools__giveIntRandom',
           ('randGaussian', 2): 'RandomTools__randGaussian',
@@ -38,6 +40,7 @@ CFG = dict(
     consts={'DEFAULT_GENERATOR': 'verif_rng'},
     throws=set(),
     struct_fields={GD: ['mu_', 'sigma_']},
+    type_aliases={'long double': 'double'},
     # double * and / are uninterpreted (structural equality of the parameter expressions is what the convention clauses need)
     uf_ops={'*': 'verif_uf_mul', '/': 'verif_uf_div'},
 )
@@ -47,12 +50,14 @@ for _k in list(CFG['types']):
 for _k in list(CFG['rename']):
     if _k[0] == 'ctor' and _k[1].endswith('<double>'):
         CFG['rename'][('ctor', _k[1][:-len('<double>')] + '<>') + tuple(_k[2:])] = CFG['rename'][_k]
-STRUCTS = [GD]
+STRUCTS = [GD, CTG]
 PRE_STRUCTS = r'''
 #include "vec.h"
 #include "libm.h"
 VEC_DECL(int, Vec_int)
 VEC_DECL(double, Vec_double)
+#include "mat.h"
+MAT_DECL(unsigned long, MatU)
 #ifdef VERIF_MODE_BOUNDED
 VEC_DECL(unsigned long, IdxVec)
 #else
@@ -89,6 +94,20 @@ static inline double Dist__op_call(Dist *d, Rng *g) { verif_dist_kind = d->kind;
   in_r = r; return r; }
 static inline unsigned long DistU__op_call(DistU *d, Rng *g) { unsigned long r = nondet_ulong(); __CPROVER_assume(r >= d->a && r <= d->b);   /* TRUSTED: uniform_int_distribution draws from [a, b] */
   return r; }
+/* rcont2: the probability terms.  exp(...) is some finite non-negative number; products and quotients of non-negative finite numbers are non-negative
+   and finite (ASSUMED: no overflow of the probability terms), and multiplying by a variate of [0, 1) does not increase (true of IEEE arithmetic) */
+#define VERIF_PFIN(v) ((v) >= 0.0 && (v) <= 1.7976931348623157e308)
+/* the two size_t products of the search loops, (id - nlm) * (ia - nlm) and nll * (ii + nll), only matter through "is it zero" and as a factor of the
+   (uninterpreted) probability ratio: any function that is zero exactly when a factor is zero (true of the product of two numbers below 2^32;
+   64-bit multipliers in every unwound iteration made the run last 30 min) */
+unsigned long __CPROVER_uninterpreted_umul(unsigned long, unsigned long);
+static inline unsigned long verif_umul(unsigned long a, unsigned long b) { unsigned long r = __CPROVER_uninterpreted_umul(a, b);
+  __CPROVER_assert(a < (1UL << 32) && b < (1UL << 32), "verif_model_bound: factors of the abstracted product below 2^32"); __CPROVER_assume((r == 0) == (a == 0 || b == 0)); return r; }
+/* every probability term (exp(...), each ratio) is at most 1e300, so that the few sums of them stay finite (ASSUMED: no overflow of the probability terms) */
+#define VERIF_PTERM(v) ((v) >= 0.0 && (v) <= 1e300)
+static inline double verif_expl(double x) { double r = __CPROVER_uninterpreted_exp(x); __CPROVER_assume(VERIF_PTERM(r)); return r; }
+static inline double verif_pmul(double a, double b) { double r = __CPROVER_uninterpreted_fmul(a, b); if (VERIF_PFIN(a) && VERIF_PFIN(b)) { __CPROVER_assume(VERIF_PFIN(r)); if (b < 1.0) __CPROVER_assume(r <= a); } return r; }
+static inline double verif_pdiv(double a, double b) { double r = __CPROVER_uninterpreted_fdiv(a, b); if (VERIF_PFIN(a) && b > 0.0 && VERIF_PFIN(b)) __CPROVER_assume(VERIF_PTERM(r)); return r; }
 double __CPROVER_uninterpreted_sqrt(double);
 static inline double verif_sqrt(double x) { return __CPROVER_uninterpreted_sqrt(x); }
 '''
@@ -101,6 +120,7 @@ static inline Vec_double verif_cumsum(const Vec_double *v) { Vec_double r; Vec_d
    fact and on equal operands giving equal quotients; exact division made these runs last 20 min for two elements */
 static inline double verif_quot(double a, double c) { double q = verif_uf_div(a, c); if (c > 0 && c <= 1.7976931348623157e308) { if (a == c) __CPROVER_assume(q == 1.0); if (a == 0.0) __CPROVER_assume(q == 0.0); } return q; }
 static inline void verif_vdiv(Vec_double *v, const double *c) { for (unsigned long i = 0; i < VEC_BCAP; ++i) if (i < v->n) v->d[i] = verif_quot(v->d[i], *c); }
+static inline unsigned long verif_usum(const IdxVec *v) { unsigned long s = 0; for (unsigned long i = 0; i < VEC_BCAP; ++i) if (i < v->n) s += v->d[i]; return s; }
 /* VectorTools::sum: left fold from 0 */
 static inline double verif_vsum(const Vec_double *v) { double s = 0; for (unsigned long i = 0; i < VEC_BCAP; ++i) if (i < v->n) s += v->d[i]; return s; }
 #else
@@ -170,6 +190,10 @@ FUNCS = [
 FUNCS += [
     # body only (bounded runs with machine floating point: the rounding of the cumulated probabilities is the point)
     dict(cname='RandomTools__randMultinomial', qname=RT + 'randMultinomial', uf_ops={}),
+    dict(cname='ContingencyTableGenerator__ctor_2', qname=CTG + '::ContingencyTableGenerator', uf_ops={}),
+    # the probability arithmetic (every * and / on x, y, sumprb, dummy and on the ratio terms over nlm / nll) is abstracted by functions that are
+    # non-negative on non-negative operands and contract (a * u <= a for 0 <= u < 1); the conditional-mean formula that initialises nlm is machine arithmetic
+    dict(cname='ContingencyTableGenerator__rcont2', qname=CTG + '::rcont2', uf_ops={'*': 'verif_pmul', '/': 'verif_pdiv'}, uf_int_ops={'*': 'verif_umul'}, uf_names=r'\b(x|y|sumprb|dummy|nlm|nll)\b'),
     dict(cname='RandomTools__pickOne_w', qname=RT + 'pickOne', targs=['int'], sig='int (std::vector<int> &, std::vector<double> &, bool)', uf_ops={}),
     dict(cname='RandomTools__pickOne_cw', qname=RT + 'pickOne', targs=['int'], sig='int (const std::vector<int> &, const std::vector<double> &)', uf_ops={}),
 ]
@@ -185,7 +209,7 @@ void h(void) { GaussianDiscreteDistribution g; g.mu_ = nondet_double(); g.sigma_
   __CPROVER_assert(0, "verif_canary reachable after call"); }
 '''),
 ]
-REPLAY = {'re:^b_(randMultinomial|weightedPick)': dict(adapter='c18_multinomial.cpp'), 'p_RandomTools__randExponential': dict(adapter='c18_conv.cpp'), 'p_RandomTools__randGamma2': dict(adapter='c18_conv.cpp'),
+REPLAY = {'re:^b_(randMultinomial|weightedPick)': dict(adapter='c18_multinomial.cpp'), 're:^b_rcont2': dict(adapter='c18_rcont2.cpp'), 'p_RandomTools__randExponential': dict(adapter='c18_conv.cpp'), 'p_RandomTools__randGamma2': dict(adapter='c18_conv.cpp'),
           'l_GaussianDiscreteDistribution_randC': dict(adapter='c18_gauss.cpp')}
 TRUSTED = ['the laws of libstdc++\'s <random> distributions and of the Mersenne twister (assumed; only the parameters handed to them are decided)',
            'std::iota / std::shuffle by contract (shuffle permutes in place)', 'sqrt uninterpreted']
@@ -268,8 +292,32 @@ void h(void) { Vec_int v; Vec_double w; v.d = (int*)verif_new_array(VEC_BCAP, si
   }
   __CPROVER_assert(0, "verif_canary reachable after call"); }
 '''
+H_RCONT = r'''
+unsigned long in_r0, in_r1, in_c0, in_c1;
+void h(void) { IdxVec rt, ct; rt.d = (unsigned long*)verif_new_array(VEC_BCAP, sizeof(unsigned long)); ct.d = (unsigned long*)verif_new_array(VEC_BCAP, sizeof(unsigned long)); rt.n = 2; ct.n = 2;
+  in_r0 = nondet_ulong(); in_r1 = nondet_ulong(); in_c0 = nondet_ulong(); in_c1 = nondet_ulong();
+  __CPROVER_assume(in_r0 <= NTOT && in_r1 <= NTOT && in_c0 <= NTOT && in_c1 <= NTOT && in_r0 + in_r1 == in_c0 + in_c1 && in_r0 + in_r1 <= NTOT);
+  rt.d[0] = in_r0; rt.d[1] = in_r1; ct.d[0] = in_c0; ct.d[1] = in_c1; verif_exc = 0;
+  ContingencyTableGenerator g; ContingencyTableGenerator__ctor_2(&g, &rt, &ct);
+  __CPROVER_assert(verif_exc == 0, "margins with equal totals are accepted");
+  MatU t = ContingencyTableGenerator__rcont2(&g);
+  __CPROVER_assert(verif_exc == 0 && t.rows == 2 && t.cols == 2, "a 2 x 2 table is returned");
+  __CPROVER_assert(MD(t, 0, 0) + MD(t, 0, 1) == in_r0 && MD(t, 1, 0) + MD(t, 1, 1) == in_r1, "the table has exactly the requested row totals");
+  __CPROVER_assert(MD(t, 0, 0) + MD(t, 1, 0) == in_c0 && MD(t, 0, 1) + MD(t, 1, 1) == in_c1, "the table has exactly the requested column totals");
+  __CPROVER_assert(MD(t, 0, 0) <= NTOT && MD(t, 0, 1) <= NTOT && MD(t, 1, 0) <= NTOT && MD(t, 1, 1) <= NTOT, "no entry is negative (wrapped)");
+  __CPROVER_assert(0, "verif_canary reachable after call"); }
+'''
 def generate_jobs(unit, tier):
     jobs = []
+    # quick: one pass of the rejection loop, totals <= 2; thorough: two passes, totals <= 3.  The rejection loop ends with probability one but not within a
+    # bound (a new variate is drawn at every pass): it is bounded on purpose, executions that need more passes are cut
+    for ntot, passes in (((2, 1),) if tier != 'thorough' else ((2, 2), (3, 2))):
+        jobs.append(dict(id='b_rcont2_2x2_n%d_p%d' % (ntot, passes), kind='bounded', mode='bounded', entry='h', bodies=['RandomTools__giveRandomNumberBetweenZeroAndEntry', 'ContingencyTableGenerator__ctor_2', 'ContingencyTableGenerator__rcont2'], harness=H_RCONT,
+                         unwind=ntot + 3, timeout=3000, defs='#define NTOT %d\n#define VEC_BCAP %d\n#define MAT_B 2\n' % (ntot, ntot + 2), mem_kb=24 * 1024 * 1024,
+                         bound_loops=['ContingencyTableGenerator__rcont2.unwind.4'],
+                         cbmc_flags=['--unwindset', ','.join('ContingencyTableGenerator__rcont2.%d:%d' % (k, b) for k, b in ((0, 2), (1, 2), (5, 2), (6, 2), (7, 2), (4, passes + 1), (2, ntot + 2), (3, ntot + 2)))],
+                         bound='2 x 2 tables, every pair of margins with a common total <= %d, at most %d pass(es) of the rejection loop; long double computed as double; exp, the probability ratios and the two integer products of the search loops uninterpreted with the axioms stated in the unit; the uniform variates any value the generator can return' % (ntot, passes),
+                         doc='rcont2: index safety of the log-factorial table, exact row and column totals, no wrapped entry'))
     wmax = 4 if tier == 'thorough' else 3
     for nin in range(0, wmax + 1):
         for mode, what in ((0, 'without replacement'), (1, 'with replacement'), (2, 'const overload')):
